@@ -21,7 +21,10 @@ import harness
 
 
 def gen_project(rnd, n, fail=0, stamp=0, maxdeps=3, sleep_ms=(2, 25)):
-    """targets t0..t(n-1); t_i depends on up to maxdeps targets with larger index and maybe on src"""
+    """targets t0..t(n-1); t_i depends on up to maxdeps targets with larger index.  Only targets without
+    dependencies (and a few others) read the source file `src` directly, so that after an edit of `src` the
+    inner targets are not plainly dirty but must be re-checked through their (possibly checksummed)
+    dependencies -- the redo-unlocked path.  A checksummed target marked `const` ignores its inputs."""
     targs = ['t%02d' % i for i in range(n)]
     deps = {}
     for i, t in enumerate(targs):
@@ -29,24 +32,37 @@ def gen_project(rnd, n, fail=0, stamp=0, maxdeps=3, sleep_ms=(2, 25)):
         k = rnd.randint(0, min(maxdeps, len(later)))
         deps[t] = sorted(rnd.sample(later, k))
     failing = set(rnd.sample(targs[1:], fail)) if fail else set()
-    stamped = set(rnd.sample(targs[1:], min(stamp, n - 1))) if stamp else set()
+    inner = [t for t in targs if deps[t]]
+    leaves = [t for t in targs if not deps[t]]
+    stamped = set()
+    if stamp:
+        # prefer targets that have dependents and dependencies of their own
+        used = set(x for ds in deps.values() for x in ds)
+        cand = [t for t in targs[1:] if t in used] or targs[1:]
+        stamped = set(rnd.sample(cand, min(stamp, len(cand))))
+    const = set(t for t in stamped if rnd.random() < 0.4)
+    src = set(leaves) | set(t for t in inner if rnd.random() < 0.15)
     sleeps = {t: rnd.randint(*sleep_ms) for t in targs}
-    return {'targs': targs, 'deps': deps, 'fail': sorted(failing), 'stamp': sorted(stamped), 'sleeps': sleeps}
+    return {'targs': targs, 'deps': deps, 'fail': sorted(failing), 'stamp': sorted(stamped), 'const': sorted(const),
+            'src': sorted(src), 'sleeps': sleeps}
 
 
 def do_text(pj, t):
     deps = pj['deps'][t]
+    alld = (['src'] if t in pj['src'] else []) + deps
     mark = 'printf \'{"pid":%%d,"ev":"%s","t":"%s"}\\n\' $$ >> "$VT_TRACE"'
     lines = ["trap '%s' EXIT" % (mark % ('ScriptEnd', t)).replace("'", "'\\''"),     # before it ends, however it ends
-             mark % ('ScriptStart', t),        # after the script began
-             'redo-ifchange src %s' % ' '.join(deps),
-             mark % ('WorkBegin', t),          # after the work section began
-             'sleep 0.%03d' % pj['sleeps'][t],
-             mark % ('WorkEnd', t),            # before it ends
-             'echo "line of %s" >&2' % t]
+             mark % ('ScriptStart', t)]        # after the script began
+    if alld:
+        lines.append('redo-ifchange %s' % ' '.join(alld))
+    lines += [mark % ('WorkBegin', t),          # after the work section began
+              'sleep 0.%03d' % pj['sleeps'][t],
+              mark % ('WorkEnd', t),            # before it ends
+              'echo "line of %s" >&2' % t]
     if t in pj['fail']:
         lines.append('exit 3')
-    body = 'cat src %s 2>/dev/null | cksum' % ' '.join(deps)
+    body = ('echo constant-%s' % t) if t in pj.get('const', []) else \
+        ('cat %s 2>/dev/null | cksum' % ' '.join(alld) if alld else 'echo leaf-%s' % t)
     if t in pj['stamp']:
         lines.append('%s | tee $3 | redo-stamp' % body)
     else:
